@@ -311,6 +311,7 @@ func runC13(c *core.Ctx, r *core.Reporter) {
 	c13internal(c, r)
 	c13exportlist(c, r)
 	c13curpkg(c, r)
+	c13qualified(c, r)
 	c13pkgarg(c, r)
 	an := lenflow.New(c)
 	const push = "C13.push"
